@@ -28,6 +28,18 @@ def main():
         rep.mc_violation("LangMC_SubsetThm", r)
     rr = langmc.run("C14_subset_nv", "strings", maxl=3, invariant="NoneParses", expect_violation=True)
     rep.extra["non_vacuity"] = {"some string of length <= 3 is accepted by the parser model": rr["violated"]}
+    # TLAPS: the two arithmetic facts the duration comparison of Lang!StaticOK (DurLE: divide instead of multiply, to stay within
+    # 32 bits) rests on, proved for all naturals (spec/proofs/DurLemma.tla)
+    import subprocess, shutil, tempfile
+    pd = tempfile.mkdtemp(prefix="c14_tlaps_", dir=os.path.join(core.VERIF, "build"))
+    shutil.copy(os.path.join(core.VERIF, "spec", "proofs", "DurLemma.tla"), pd)
+    try:
+        pr = subprocess.run(["tlapm", "DurLemma.tla"], cwd=pd, stdout=subprocess.PIPE, stderr=subprocess.STDOUT, universal_newlines=True, timeout=600)
+        if "All 4 obligations proved" not in pr.stdout:
+            raise core.Machinery("tlapm did not prove spec/proofs/DurLemma.tla\n" + pr.stdout[-1500:])
+        rep.extra["tlaps"] = {"module": "spec/proofs/DurLemma.tla", "theorems": ["DivDown", "DivUp"], "obligations_proved": 4}
+    finally:
+        shutil.rmtree(pd, ignore_errors=True)
     cases = []
     # (1) exhaustive short token strings over a reduced alphabet (one representative per class)
     reps = [lang.T("id", "x", "x"), lang.T("num", 1, "1"), lang.T("("), lang.T(")"), lang.T("["), lang.T("]"), lang.T(","), lang.T(";"),
